@@ -112,6 +112,36 @@ def check_obligations(files):
     return dict(obligations=obligations, discharged=discharged, failed=failed, assumptions=assumptions)
 
 
+def coqchk_once():
+    """thorough tier: independent re-check of every compiled Properties module and all they depend on
+    (coqchk -silent -o), once per state of the .vo files (stamped). -> dict(ok, axioms, wall_s, cached)"""
+    import fcntl, glob
+    vos = sorted(glob.glob(COQ + '/theories/**/*.vo', recursive=True) + glob.glob(COQ + '/gen/*.vo'))
+    h = hashlib.sha256()
+    for v in vos:
+        st = os.stat(v)
+        h.update(('%s:%d:%d;' % (v, st.st_size, int(st.st_mtime))).encode())
+    stamp = h.hexdigest()
+    cache = B + '/coqchk.json'
+    with open(B + '/.coqchk.lock', 'w') as lk:
+        fcntl.flock(lk, fcntl.LOCK_EX)
+        if os.path.exists(cache):
+            d = json.load(open(cache))
+            if d.get('stamp') == stamp:
+                d['cached'] = True
+                return d
+        mods = ['CPF.Properties.' + os.path.basename(p)[:-2] for p in sorted(glob.glob(COQ + '/theories/Properties/*.v'))]
+        t = time.time()
+        rc, out, err = run(['coqchk', '-silent', '-o', '-Q', 'theories', 'CPF', '-Q', 'gen', 'CPF.gen'] + mods, timeout=7200, cwd=COQ)
+        text = (out + err).decode(errors='replace')
+        m = re.search(r'\* Axioms:(.*?)\n\s*\n', text, re.S)
+        axioms = m.group(1).strip() if m else 'NOT REPORTED'
+        d = dict(stamp=stamp, ok=(rc == 0), axioms=axioms, wall_s=round(time.time() - t, 1), modules=mods, cached=False,
+                 tail=text[-600:] if rc != 0 else '')
+        json.dump(d, open(cache, 'w'))
+        return d
+
+
 def coq_log_tail():
     try:
         return open(B + '/coq.log', errors='replace').read()[-1500:]
@@ -177,6 +207,11 @@ def finish(pid, tier, seed, t0, res, obl, level='proof', checker_cmd=None, trust
         lines.append('VIOLATION property=%s replay=%s no-failing-input-found' % (pid, path))
         status = 1
     cov = dict(res.coverage)
+    if tier == 'thorough' and os.environ.get('VERIF_NO_COQCHK') != '1':
+        ck = coqchk_once()
+        cov['coqchk'] = dict(ok=ck['ok'], axioms=ck['axioms'], wall_s=ck['wall_s'], cached=ck.get('cached'), modules=len(ck.get('modules', [])))
+        if not ck['ok'] or ck['axioms'] not in ('<none>',):
+            broken.append('coqchk: ' + (ck.get('tail') or ('axioms: ' + ck['axioms']))[:300])
     cov.setdefault('obligations', len(obl['obligations']))
     cov.setdefault('discharged', len(obl['discharged']))
     cov.setdefault('checker_cmd', checker_cmd or 'bin/build (coq_makefile + make -k -j16, full .vo) ; coqc -Q theories CPF -Q gen CPF.gen theories/Properties/%s.v' % pid)
